@@ -1,6 +1,8 @@
 package core
 
 import (
+	"fmt"
+
 	"github.com/jsightapi/jsight-schema-core/rules/enum"
 
 	"github.com/jsightapi/jsight-api-core/directive"
@@ -28,11 +30,14 @@ func (core *JApiCore) buildRule(d *directive.Directive) *jerr.JApiError {
 		return nil
 	}
 
+	name := d.NamedParameter("Name")
+	if name == "" {
+		return d.KeywordError(fmt.Sprintf("%s (%s)", jerr.RequiredParameterNotSpecified, "Name"))
+	}
+
 	if !d.BodyCoords.IsSet() {
 		return nil
 	}
-
-	name := d.NamedParameter("Name")
 
 	r := enum.New(name, d.BodyCoords.Read())
 	if err := r.Check(); err != nil {
